@@ -11,3 +11,4 @@ EXPLANATION = ('match_namespace is proved equal to the table of the property (ns
 LEVEL_TEXT = EXPLANATION
 TIMEOUT_MS = {'quick': 20000, 'thorough': 120000}
 MUSTFAIL_PER_FN = {'quick': 1, 'thorough': 6}
+BOUNDED = [hub_bounded('C12-namespaces', ['ns', 'svghtml', 'plain', 'svg5', 'basic'], ['ns'], nsnames=('none', 'svg', 'default-html', 'default-x'))]
